@@ -264,7 +264,7 @@ class Library:
                 **{"int": _TypeAndCall(int, b_int), "float": _TypeAndCall(float, b_float), "bool": _TypeAndCall(bool, b_bool),
                    "str": _TypeAndCall(str, lambda x="": x if isinstance(x, str) else Opaque("str")),
                    "list": _TypeAndCall(list, lambda x=(): list(x)), "tuple": _TypeAndCall(tuple, lambda x=(): tuple(x)),
-                   "dict": _TypeAndCall(dict, dict), "complex": _TypeAndCall(complex, lambda *a: _oor("complex()"))}}
+                   "dict": _TypeAndCall(dict, dict), "complex": _TypeAndCall(complex, _mk_complex)}}
 
     # -- numpy ---------------------------------------------------------------------------------
     def _np_table(self):
@@ -799,6 +799,13 @@ def _dispatch(name, args, **kw):
 
 def _oor(what):
     raise OutOfReach(what)
+
+
+def _mk_complex(re=0, im=0):
+    from . import idx as ix
+    if is_reallike(re) and is_reallike(im):
+        return ix.CScal(re if not isinstance(re, float) else Fraction(repr(re)), im if not isinstance(im, float) else Fraction(repr(im)))
+    raise OutOfReach("complex() of non-real arguments")
 
 
 def _raise_sparse_stack():
